@@ -9,6 +9,19 @@ from . import gen, lvl
 from .common import *
 
 
+def coq_judge(queries):
+    """Runs `JUDGE …` queries through the extracted judges of Spec/Judges.v (modelrun); returns list of bools."""
+    import subprocess
+    if not queries:
+        return []
+    p = subprocess.run([MODELRUN], input="".join("JUDGE " + q + "\n" for q in queries), text=True,
+                       stdout=subprocess.PIPE, timeout=1200)
+    ans = p.stdout.splitlines()
+    if len(ans) != len(queries):
+        raise RuntimeError("judge co-process answered %d of %d queries" % (len(ans), len(queries)))
+    return [a == "= 1" for a in ans]
+
+
 def load_corpus(pid):
     """corpus/<pid>.txt: one case per line `price|op|op|...` (# comments)."""
     out = []
@@ -45,7 +58,8 @@ class LevelRun:
 
 
 def run_property(pid, tier, seed, replay, *, make_cases, judge, corr_filter=None, checker_note="",
-                 classify=None, mode="O", rule="", profiles=None, extra_obligations=None, nontrivial=None):
+                 classify=None, mode="O", rule="", profiles=None, extra_obligations=None, nontrivial=None,
+                 coq_queries=None):
     """
     make_cases(rng, tier) -> list of (price, ops)            (corpus is prepended automatically)
     judge(rec, price, ops) -> list of (opindex, text)         property violated by the IMPLEMENTATION trace
@@ -74,6 +88,7 @@ def run_property(pid, tier, seed, replay, *, make_cases, judge, corr_filter=None
     cases = [("c%d" % i, p, ops) for i, (p, ops) in enumerate(raw)]
 
     corr_bad, judge_bad, known_hits, iface_bad = [], [], {}, []
+    formal = []          # (rec, price, ops, opindex, query, text, profile): decided by the extracted Coq judges below
     n_ops = 0
     distinct = set()
     dist = {}
@@ -97,6 +112,9 @@ def run_property(pid, tier, seed, replay, *, make_cases, judge, corr_filter=None
                 corr_bad.append((rec, price, ops, diffs[0][0], diffs[0][1], prof))
             if rec["end"] and "iface=1" not in rec["end"]:
                 iface_bad.append((rec, price, ops, prof))
+            if coq_queries:
+                for (i, q, text) in coq_queries(rec, price, ops):
+                    formal.append((rec, price, ops, i, q, text, prof))
             for (i, text) in judge(rec, price, ops):
                 k = classify(rec, price, ops, i, text) if classify else None
                 if k:
@@ -107,6 +125,17 @@ def run_property(pid, tier, seed, replay, *, make_cases, judge, corr_filter=None
         if len(run.recs) != len(cases):
             ck.oblige("harness ran all cases (%s)" % prof, False, "%d of %d" % (len(run.recs), len(cases)))
 
+    if formal:
+        verdicts = coq_judge([f[4] for f in formal])
+        fails = [f for f, v in zip(formal, verdicts) if not v]
+        seen_cases = set()
+        for (rec, price, ops, i, q, text, prof) in fails:
+            if id(rec) in seen_cases:
+                continue
+            seen_cases.add(id(rec))
+            judge_bad.append((rec, price, ops, i, text + " [extracted judge: JUDGE %s -> false]" % q[:120], prof))
+        ck.oblige("formal judge (Spec/Judges.v, extracted): %d statements evaluated on implementation observations" % len(formal),
+                  not fails, "%d false" % len(fails))
     ck.cov["evaluations"] = n_ops
     ck.cov["distinct_nontrivial"] = len(distinct)
     ck.cov["rule"] = rule or ("single-threaded histories (corpus first, then generated from one PRNG); an evaluation is one operation "
